@@ -322,11 +322,6 @@ func (r *refState) class() string {
 	if !base && (r.cyclic(true) || bothStar) {
 		return "star-unsat"
 	}
-	for _, e := range r.live {
-		if (e.Before == "*" || e.After == "*") && e.Hid != e.Reg {
-			return "star-replace"
-		}
-	}
 	for _, c := range r.live {
 		if c.Before == "" || c.Before == "*" {
 			continue
@@ -350,6 +345,13 @@ func (r *refState) class() string {
 	}
 	if base {
 		return "named-cycle"
+	}
+	// label only (fixed by /repo e28c215); checked last so that it never hides a class that is still known
+	// (twin of C17_CheckK.class_k)
+	for _, e := range r.live {
+		if (e.Before == "*" || e.After == "*") && e.Hid != e.Reg {
+			return "star-replace"
+		}
 	}
 	return ""
 }
